@@ -340,6 +340,18 @@ func (c *Ctx) Numeric(t *rapid.T, kind model.Kind, pos Pos) *model.Node {
 			n.MultipleOf = model.FloatP(rapid.SampledFrom([]float64{0.25, 0.5, 1, 1.5, 2, 2.5, 8}).Draw(t, "mult"))
 		}
 	}
+	if p.MinSizedBounds {
+		big64 := func(f float64) bool { return f >= 9223372036854775808.0 || f <= -9223372036854775808.0 }
+		if n.ExclMin != nil && ((!n.ExclMin.IsBool && big64(n.ExclMin.N)) || (n.ExclMin.IsBool && n.ExclMin.B && n.Minimum != nil && big64(*n.Minimum))) && p.avoid("ints.exclusive_bound_at_64bit_limit") {
+			n.ExclMin = nil
+		}
+		if n.ExclMax != nil && ((!n.ExclMax.IsBool && big64(n.ExclMax.N)) || (n.ExclMax.IsBool && n.ExclMax.B && n.Maximum != nil && big64(*n.Maximum))) && p.avoid("ints.exclusive_bound_at_64bit_limit") {
+			n.ExclMax = nil
+		}
+		if pos == PosItem && kind == model.KInteger && (n.Maximum != nil || n.ExclMax != nil) && p.avoid("minsized.uint8_array_items") {
+			n.Maximum, n.ExclMax = nil, nil
+		}
+	}
 	if p.Sat != nil && !p.KeepUnsat {
 		// repair empty intervals by dropping keywords in a fixed order
 		for _, drop := range []func(){
